@@ -980,6 +980,8 @@ def untake(x, idx, vs):
             idx = idx.astype("int64")
 
     def mut_add(A):
+        if not isinstance(A, onp.ndarray):
+            A = onp.array(A)  # a 0-d accumulator may arrive as a numpy scalar, which add.at cannot update
         onp.add.at(A, idx, x)
         return A
 
